@@ -177,6 +177,7 @@ class Ctx:
 
     # ---- merging results from worker processes -----------------------------------
     def export_partial(self):
+        _drain_config_events(self)
         return {
             "mon": dict(self.mon),
             "viol": self.viol,
@@ -213,6 +214,7 @@ class Ctx:
 
     # ---- finish --------------------------------------------------------------------
     def finish(self, rule, assumptions, extra_cov=None, exhaustive=False):
+        _drain_config_events(self)
         known = load_known()
         open_keys = {(k["property"], k["key"]): k for k in known.get("open", [])}
         for m, n in self.required.items():
@@ -374,3 +376,62 @@ def run_shards(ctx, modname, fname, payloads, workers=None, timeout=3000):
             ctx.inconclusive_because(f"watchdog: shards did not finish in {timeout}s")
             for f in futs:
                 f.cancel()
+
+
+def _raw_model(m):
+    from pydantic import BaseModel
+
+    return {k: (_raw_model(getattr(m, k)) if isinstance(getattr(m, k), BaseModel) else getattr(m, k)) for k in type(m).model_fields}
+
+
+def _leaf_diffs(a, b, pre=""):
+    out = []
+    for k in a:
+        if isinstance(a[k], dict) and isinstance(b.get(k), dict):
+            out += _leaf_diffs(a[k], b[k], f"{pre}{k}.")
+        else:
+            va, vb = a[k], b.get(k, "<missing>")
+            same = (va == vb and type(va) is type(vb)) or (isinstance(va, float) and isinstance(vb, float) and va != va and vb != vb) or (isinstance(va, (int, float)) and isinstance(vb, (int, float)) and not isinstance(va, bool) and not isinstance(vb, bool) and va == vb)
+            if not same:
+                out.append((pre + k, va, vb))
+    return out
+
+
+_CONFIG_EVENTS = {"validated": 0, "rejected": [], "altered": []}
+
+
+def validated(cfg, where=""):
+    """The configuration a check built by attribute assignment, passed once through the validating
+    constructor (what a TOML file, the command line or config_from_fits go through). Every value is
+    a bare number / string in the canonical unit, so the validated object must hold exactly the
+    values that were assigned: a validator that silently alters a setting makes every downstream
+    result describe another configuration than the one asked for. Alterations are collected here
+    and turned into violations by the Ctx of the running check (export_partial / finish)."""
+    d = _raw_model(cfg)
+    try:
+        c2 = type(cfg)(**d)
+    except Exception as e:  # the checks' own configurations are valid; a rejection is recorded
+        if len(_CONFIG_EVENTS["rejected"]) < 5:
+            _CONFIG_EVENTS["rejected"].append(f"{where}: {type(e).__name__}: {str(e)[:200]}")
+        return cfg
+    _CONFIG_EVENTS["validated"] += 1
+    diffs = _leaf_diffs(d, _raw_model(c2))
+    if diffs and len(_CONFIG_EVENTS["altered"]) < 20:
+        k, va, vb = diffs[0]
+        _CONFIG_EVENTS["altered"].append((where, k, repr(va), repr(vb), len(diffs)))
+    return c2
+
+
+def _drain_config_events(ctx):
+    ev = _CONFIG_EVENTS
+    if ev["validated"]:
+        ctx.count("config-validated", ev["validated"])
+        ev["validated"] = 0
+    for r in ev["rejected"]:
+        ctx.obs.setdefault("configurations_rejected_by_validation", [])
+        if r not in ctx.obs["configurations_rejected_by_validation"] and len(ctx.obs["configurations_rejected_by_validation"]) < 5:
+            ctx.obs["configurations_rejected_by_validation"].append(r)
+    ev["rejected"] = []
+    for where, k, va, vb, n in ev["altered"]:
+        ctx.violation("config-altered", f"{where + ': ' if where else ''}building the configuration through its validators changes {k}: {va} -> {vb} ({n} field(s)); every result then describes another configuration than the one asked for", {"field": k, "asked": va, "stored": vb})
+    ev["altered"] = []
